@@ -163,6 +163,22 @@ func C04(c *Ctx) {
 				}
 			}
 			r.Check(neg, "C04.fail-only-on-failure", name, "FireAfter(EventAuthFail)", pos, "fired only on the failure side of a credential check", "failure event is not control-dependent on a failed credential check: a correct credential could be counted as a failure")
+			// "index of the match, -1 if none": the failure side must not admit an index
+			// at which a match was found (index 0 is a match)
+			for _, fa := range FactsAtInstr(f.Call.(ssa.Instruction)) {
+				rel := fa.Rel()
+				phi, isPhi := rel.X.(*ssa.Phi)
+				n, isC := ConstInt(rel.Y)
+				if !isPhi || !isC || rel.Op == token.ILLEGAL {
+					continue
+				}
+				if len(c.credOfIntPhi(phi, negOpTok(rel.Op), n, 0)) == 0 {
+					continue // not a match-index decision
+				}
+				if adm := c.admitsVerified(phi, rel.Op, n, 0); adm != "" {
+					r.Bad("C04.fail-only-on-failure", name, "FireAfter(EventAuthFail)|match index", pos, "the failure side of the match-index test ("+rel.Op.String()+sprintf(" %d", n)+") also holds for "+adm+": a correct credential found there is reported, and counted, as a failure")
+				}
+			}
 		}
 	}
 	r.Extra["authfail_fire_sites"] = nFail
@@ -373,4 +389,101 @@ func (c *Ctx) lockStateStructure(fn *ssa.Function) {
 		}
 	}
 	r.Check(okLast, "C04.state", name, "PutLastAttempt(now)", c.P.Pos(fn.Pos()), "last attempt stamped before saving", "last attempt is not stamped with the current time before Save")
+}
+
+func negOpTok(op token.Token) token.Token {
+	switch op {
+	case token.EQL:
+		return token.NEQ
+	case token.NEQ:
+		return token.EQL
+	case token.LSS:
+		return token.GEQ
+	case token.LEQ:
+		return token.GTR
+	case token.GTR:
+		return token.LEQ
+	case token.GEQ:
+		return token.LSS
+	}
+	return op
+}
+
+// nonNegativeIndex: v is a loop index that starts at 0 (a range index or a
+// counter initialised to 0/-1 and incremented by one).
+func nonNegativeIndex(v ssa.Value, d int) bool {
+	if d > 3 {
+		return false
+	}
+	if k, ok := ConstInt(v); ok {
+		return k >= 0
+	}
+	switch x := v.(type) {
+	case *ssa.BinOp:
+		if x.Op == token.ADD {
+			if k, ok := ConstInt(x.Y); ok && k == 1 {
+				if phi, ok := x.X.(*ssa.Phi); ok {
+					for _, e := range phi.Edges {
+						if e == ssa.Value(x) {
+							continue
+						}
+						if k0, ok := ConstInt(e); !ok || k0 < -1 {
+							return false
+						}
+					}
+					return true
+				}
+			}
+		}
+	case *ssa.Phi:
+		for _, e := range x.Edges {
+			if bo, ok := e.(*ssa.BinOp); ok && bo.Op == token.ADD && bo.X == ssa.Value(x) {
+				continue
+			}
+			if !nonNegativeIndex(e, d+1) {
+				return false
+			}
+		}
+		return true
+	case *ssa.Extract:
+		if _, ok := x.Tuple.(*ssa.Next); ok && x.Index == 1 {
+			return true // key of a range over a string/slice iterator
+		}
+	}
+	return false
+}
+
+// admitsVerified: the relation "phi op n" can hold for an operand that arrives
+// over an edge on which a credential was verified.
+func (c *Ctx) admitsVerified(phi *ssa.Phi, op token.Token, n int64, depth int) string {
+	if depth > 3 {
+		return ""
+	}
+	for i, e := range phi.Edges {
+		if inner, ok := e.(*ssa.Phi); ok && inner != phi {
+			if s := c.admitsVerified(inner, op, n, depth+1); s != "" {
+				return s
+			}
+			continue
+		}
+		if len(c.credsAtEdge(phi.Block().Preds[i], phi.Block())) == 0 {
+			continue
+		}
+		if k, ok := ConstInt(e); ok {
+			if cmpHolds(k, op, n) {
+				return sprintf("the value %d assigned on a verified path", k)
+			}
+			continue
+		}
+		if nonNegativeIndex(e, 0) {
+			// e >= 0: the relation is impossible only if it implies e < 0
+			impossible := (op == token.LSS && n <= 0) || (op == token.LEQ && n < 0) || (op == token.EQL && n < 0)
+			if !impossible {
+				return "a match index (>= 0) assigned on a verified path"
+			}
+			continue
+		}
+		return "a value assigned on a verified path"
+	}
+	return ""
 }
